@@ -70,5 +70,17 @@ func Cases() []bk.Case {
 			api.AssertIsEqual(api.Add(s[0], s[1]), p[1])
 			return nil
 		}, Valid: [][2][]*big.Int{{bk.Big(6, 5), bk.Big(2, 3)}, {bk.Big(20, 9), bk.Big(4, 5)}}, Invalid: [][2][]*big.Int{{bk.Big(6, 6), bk.Big(2, 3)}}},
+		{Name: "fanout", NP: 1, NS: 2, Def: func(api frontend.API, p, s []frontend.Variable) error {
+			// s[0] occurs at many positions; the products are only used once more each
+			a := api.Mul(s[0], s[0])
+			b := api.Mul(s[0], s[1])
+			d := api.Mul(a, s[0])
+			api.AssertIsEqual(api.Add(a, b, d, s[0]), p[0])
+			return nil
+		}, Valid: [][2][]*big.Int{{bk.Big(9 + 6 + 27 + 3), bk.Big(3, 2)}, {bk.Big(16 + 20 + 64 + 4), bk.Big(4, 5)}}, Invalid: [][2][]*big.Int{{bk.Big(46), bk.Big(3, 2)}}},
+		{Name: "tiny-domain", NP: 1, NS: 1, Def: func(api frontend.API, p, s []frontend.Variable) error {
+			api.AssertIsEqual(api.Mul(s[0], s[0]), p[0])
+			return nil
+		}, Valid: [][2][]*big.Int{{bk.Big(9), bk.Big(3)}, {bk.Big(16), bk.Big(4)}}, Invalid: [][2][]*big.Int{{bk.Big(10), bk.Big(3)}}},
 	}
 }
